@@ -286,6 +286,9 @@ struct Ctx {
     out: Out,
     scratch: PathBuf,
     n: u64,
+    /// "committed sources = generator output", one entry per file (goes to summary.extra)
+    regen: Vec<Value>,
+    committed: Vec<Value>,
 }
 impl Ctx {
     fn dir(&mut self, what: &str) -> PathBuf {
@@ -725,6 +728,10 @@ fn committed_and_regen(ctx: &mut Ctx) {
                 (None, None) => unreachable!(),
             };
             ctx.out.hist("regen", if orc.is_none() { "identical" } else { "differs" });
+            // visible in the evidence (distribution): one line per committed file
+            ctx.out.hist(&format!("regen.file.{}/{}/{}", cr, out_rel, n), if orc.is_none() { "byte-identical to generator output" } else { "DIFFERS from generator output" });
+            ctx.regen.push(json!({"crate": cr, "file": format!("{}/{}", out_rel, n), "committed_bytes": committed.as_ref().map(|c| c.len()),
+                "regenerated_bytes": regenerated.as_ref().map(|c| c.len()), "byte_identical": orc.is_none(), "detail": orc}));
             ctx.out.push(Case {
                 kind: format!("regen.{}", n),
                 input: json!({"crate": cr, "file": format!("{}/{}", out_rel, n), "bytes": committed.as_ref().map(|c| c.len()), "protos": calls.iter().flat_map(|c| c.iface_files.clone()).collect::<Vec<_>>()}),
@@ -786,6 +793,9 @@ fn committed_and_regen(ctx: &mut Ctx) {
                 }
             };
             ctx.out.hist("committed.services_in_file", svcs.len());
+            ctx.out.hist(&format!("committed.file.{}/{}/{}", cr, out_rel, fname), if orc.is_none() { "extraction agrees with the .proto services" } else { "DISAGREES with the .proto services" });
+            ctx.committed.push(json!({"crate": cr, "file": format!("{}/{}", out_rel, fname), "package": pkg, "services": svcs.iter().map(|s| s.ident.clone()).collect::<Vec<_>>(),
+                "rpcs": svcs.iter().map(|s| s.methods.len()).sum::<usize>(), "agrees": orc.is_none(), "detail": orc}));
             ctx.out.push(Case {
                 kind: format!("committed.{}", fname),
                 input: json!({"file": path.display().to_string(), "package": pkg, "services": svcs.iter().map(|s| s.json()).collect::<Vec<_>>(), "build_client": bc, "build_server": bs}),
@@ -895,7 +905,7 @@ mod e2e {
                         Ok((Err(()), _)) => (Tr::L(vec![Tr::n(97u8)]), Some("client call did not complete".into())),
                         Ok((Ok(status), client_shape)) => {
                             let outcome = if hits.len() == 1 {
-                                Tr::L(vec![Tr::L(vec![Tr::n(0u8), Tr::s(&hits[0].0), Tr::s(&hits[0].1)]), Tr::L(vec![])])
+                                Tr::L(vec![Tr::L(vec![Tr::n(0u8), Tr::s(&hits[0].0), Tr::s(&hits[0].1)]), Tr::L(vec![Tr::n(0u8)])])
                             } else {
                                 let code = match &status {
                                     Err(s) => s.code() as i32 as u32,
@@ -957,7 +967,7 @@ fn main() {
     let scratch = PathBuf::from(format!("/tmp/codegen/{}", std::process::id()));
     let _ = std::fs::remove_dir_all(&scratch);
     std::fs::create_dir_all(&scratch).unwrap();
-    let mut ctx = Ctx { out: Out::new(&a.out), scratch: scratch.clone(), n: 0 };
+    let mut ctx = Ctx { out: Out::new(&a.out), scratch: scratch.clone(), n: 0, regen: vec![], committed: vec![] };
     let mut r = Rng::new(a.seed);
 
     // ---- corpus: committed sources, regeneration, hand-picked descriptors ----
@@ -1022,10 +1032,13 @@ fn main() {
     }
 
     let _ = std::fs::remove_dir_all(&scratch);
+    let regen = std::mem::take(&mut ctx.regen);
+    let committed = std::mem::take(&mut ctx.committed);
     let _ = std::fs::remove_dir("/tmp/codegen"); // only if no other run is using it
     ctx.out.finish(
         IMPORTS,
         "gen.tokens / gen.manual: random tonic_build::manual descriptors (package absent / single / nested, CamelCase / snake / digit identifiers, Rust keywords as method names, 0..9 methods over the four streaming kinds) x options (emit_package, use_arc_self, generate_default_stubs, client only / server only / both) through the real generators; gen.prost: the same descriptors as prost FileDescriptorSets (1..3 services per file) through tonic_build::configure()..compile_fds; committed.*: the committed generated sources against their .proto files; regen.*: byte comparison with a fresh run of /repo/codegen's own codegen(); e2e: generated clients called through Routes carrying generated servers. Non-trivial = at least one method. Distinct = distinct (kind, model expression).",
-        json!({}),
+        json!({"committed_sources_equal_generator_output": regen, "committed_sources_vs_proto": committed,
+               "bootstrap_generator": "/repo/codegen/src/main.rs `codegen` (included verbatim), argument table parsed from its `main`"}),
     );
 }
